@@ -4,6 +4,7 @@ import json
 import math
 import os
 import shutil
+import struct
 import subprocess
 import sys
 import sysconfig
@@ -112,7 +113,7 @@ def build_extension(run):
 
 
 HANG_SECONDS = 60
-NAMES = {"c": "c-extension(rebuilt)", "py": "pyhv"}
+NAMES = {"c": "c-extension(rebuilt)", "py": "pyhv", "fb": "library-selected fallback (extension import blocked)"}
 
 
 def run_worker(run, jobs, so_path, state):
@@ -256,33 +257,115 @@ def main(run):
             shutil.rmtree(run.rundir, ignore_errors=True)     # hidden .aux files of the shards etc.
 
 
+def f32_exact(x):
+    x = float(x)
+    return struct.unpack("f", struct.pack("f", x))[0] == x
+
+
+def small_enough(pts, ref, bits=20):
+    """Every volume / partial sum of the implementations is an integer multiple of the grid resolution bounded by
+    n * (bounding box): True if that fits in `bits` bits, i.e. arithmetic in a float type with that mantissa is exact."""
+    ipts, iref, L = to_ints(pts, ref)
+    B = len(pts) + 1
+    for i in range(len(ref)):
+        lo = min([p[i] for p in ipts] + [iref[i]])
+        B *= max(1, iref[i] - lo, abs(iref[i]), abs(lo))
+    return B < 2 ** bits
+
+
+def is_int(x):
+    return Fraction(x).denominator == 1
+
+
 def _main(run, rng, so_path):
     backends = (["c"] if so_path else []) + ["py"]
     jobs = []          # {"job": what the worker gets, + bookkeeping}
-    state = {"grid_budget": run.scale(800, 8000), "nstress": 0, "ncrash": 0, "nbad": {}}
+    fb_jobs = []       # population jobs repeated on the library's own fallback route (extension import blocked)
+    state = {"grid_budget": run.scale(800, 8000), "nstress": 0, "ncrash": 0, "nbad": {}, "npure": 0, "nprobe": 0,
+             "selected": set()}
     CHUNK = 25000
 
-    def flush():
-        if not jobs:
+    # ------------------------------------------------------------------ judging helpers
+    def pop_expect(w, vals, refo):
+        nobj = len(w)
+        P = [[-(x * wi) for x, wi in zip(v, w)] for v in vals]
+        ref = refo if refo is not None else [max(p[i] for p in P) + 1 for i in range(nobj)]
+        total = measure_ie(P, ref)
+        losses = [total - measure_ie(P[:i] + P[i + 1:], ref) for i in range(len(P))]
+        return total, losses
+
+    def flush(joblist, so):
+        if not joblist:
             return
-        # ------------------------------------------------------------------ run the implementations
-        results, crashes = run_worker(run, jobs, so_path, state)
+        results, crashes = run_worker(run, joblist, so, state)
         crashed = {}
         for idx, be, how in crashes:
             crashed[(idx, be)] = how
-
-        # ------------------------------------------------------------------ oracle + Coq terms
         terms, cases = [], []
         terms2, cases2 = [], []
-        for idx, j in enumerate(jobs):
+
+        def judge_hv(case, name, r, expected, obs):
+            """r = ["ok", float] / ["err", text]"""
+            v = Fraction(r[1]) if r[0] == "ok" else r[1]
+            case.setdefault(name, []).append(str(v))
+            if r[0] != "ok" or v != expected:
+                run.oracle_violation("%s.hypervolume(points, ref) is not the measure of the union of the boxes "
+                                     "[p, ref)" % name, dict(case), observed=str(v))
+            if r[0] == "ok":
+                obs.append(v)
+
+        def judge_pop(case, name, r, total, losses, nvals, obs_hv, obs_idx, obs_contrib):
+            for bt in r["bt"]:
+                v = Fraction(bt[1]) if bt[0] == "ok" else bt[1]
+                case.setdefault("benchmarks.tools.hypervolume[%s]" % name, []).append(str(v))
+                if bt[0] != "ok" or v != total:
+                    run.oracle_violation("benchmarks.tools.hypervolume (back-end %s) is not the measure of the union of the "
+                                         "boxes of the negated weighted objectives (default reference: worst + 1)" % name,
+                                         dict(case), observed=str(v))
+                if bt[0] == "ok":
+                    obs_hv.append(v)
+            for ind, contrib in zip(r["ind"], r["contrib"]):
+                i = ind[1]
+                case.setdefault("tools.indicator.hypervolume[%s]" % name, []).append(str(i))
+                if ind[0] != "ok" or not (0 <= i < nvals) or losses[i] != min(losses):
+                    run.oracle_violation("tools.indicator.hypervolume (back-end %s) does not return the index of an "
+                                         "individual whose removal reduces the hypervolume the least" % name, dict(case),
+                                         observed=str(i))
+                if ind[0] == "ok" and i >= 0:
+                    obs_idx.append(i)
+                    if len(contrib) == nvals and all(c[0] == "ok" for c in contrib):
+                        obs_contrib.append([Fraction(c[1]) for c in contrib])
+
+        def pure(case, name, keep):
+            state["npure"] += 1
+            if not keep:
+                c = dict(case)
+                c["modified_arguments_by"] = name
+                terms.append("CPure false")
+                cases.append(c)
+
+        for idx, j in enumerate(joblist):
             res = results[idx]
-            if j["job"]["k"] == "hv":
-                pts, ref, expected = j["pts"], j["ref"], j["expected"]
+            kind = j["job"]["k"]
+            jbackends = j["job"]["backends"]
+            if kind == "probe":
+                state["nprobe"] += 1
+                for be in jbackends:
+                    if (idx, be) in crashed:
+                        run.oracle_violation("%s.hypervolume %s on malformed arguments (non-sequence / wrong dimension)"
+                                             % (NAMES[be], crashed[(idx, be)]), {"kind": "probe"}, observed=crashed[(idx, be)])
+                continue
+            if kind in ("hv", "hvseq"):
+                ref = j["ref"]
                 d = len(ref)
-                case = {"kind": "hv", "tag": j["tag"], "points": [sfr(p) for p in pts], "ref": sfr(ref), "expected": str(expected),
-                        "as_lists": j["job"]["aslist"]}
-                obs = []
-                for be in backends:
+                steps = [(j["pts"], j["expected"])] if kind == "hv" else list(zip(j["fronts"], j["expected"]))
+                case = {"kind": kind, "tag": j["tag"], "ref": sfr(ref), "argument_form": j["job"].get("form", "arr"),
+                        "called_twice_on_same_objects": bool(j["job"].get("twice")),
+                        "points": [[sfr(p) for p in pts] for pts, _ in steps] if kind == "hvseq" else [sfr(p) for p in j["pts"]],
+                        "expected": [str(e) for _, e in steps]}
+                obs_steps = [[] for _ in steps]
+                lowobs = {}
+                for be in jbackends:
                     name = NAMES[be]
                     if (idx, be) in crashed:
                         case[name] = crashed[(idx, be)]
@@ -291,100 +374,120 @@ def _main(run, rng, so_path):
                         continue
                     if res is None or be not in res:
                         continue            # not run (worker failure recorded in run.broken)
-                    r = res[be]
-                    v = Fraction(r[1]) if r[0] == "ok" else r[1]
-                    case[name] = str(v)
-                    if r[0] != "ok" or v != expected:
-                        run.oracle_violation("%s.hypervolume(points, ref) is not the measure of the union of the boxes "
-                                             "[p, ref)" % name, dict(case), observed=str(v))
-                    if r[0] == "ok":
-                        obs.append(v)
-                nboxes = sum(1 for p in pts if all(p[i] < ref[i] for i in range(d)))
-                if j["stress"]:
-                    state["nstress"] += 1
-                    run.note_case(case, nboxes >= 2, sample=case if state["nstress"] == 7 else None)
-                    if not j["coq"]:
-                        continue
-                ncell = 1
-                for i in range(d):
-                    ncell *= max(1, len(set(p[i] for p in pts)))
-                grid = ncell <= 400 and state["grid_budget"] > 0
-                if grid:
-                    state["grid_budget"] -= 1
-                terms.append("CHv %s %s %s %s" % (cql(ref), cpts(pts), cbool(grid), cql(obs)))
-                cases.append(case)
-                if d <= 2:
-                    # the transcribed one-/two-objective code paths, each against its own implementation
-                    byname = {}
-                    for be in backends:
-                        r = None if res is None else res.get(be)
-                        byname[be] = Fraction(r[1]) if (r is not None and r[0] == "ok") else None
-                    terms.append("CLow %s %s %s %s" % (cql(ref), cpts(pts), copt(byname.get("c"), cq), copt(byname.get("py"), cq)))
+                    if kind == "hv":
+                        for r in res[be]["v"]:
+                            judge_hv(case, name, r, j["expected"], obs_steps[0])
+                            if r[0] == "ok":
+                                lowobs[be] = Fraction(r[1])
+                        pure(case, name, res[be]["keep"])
+                    else:
+                        for k, r in enumerate(res[be]):
+                            if k < len(steps):
+                                judge_hv(case, name, r, steps[k][1], obs_steps[k])
+                        if len(res[be]) != len(steps):
+                            run.oracle_violation("pyhv._HyperVolume instance reused: wrong number of results", dict(case))
+                for k, (pts, expected) in enumerate(steps):
+                    mpts = pts + [ref] if j["job"].get("form") == "refview" else pts
+                    nboxes = sum(1 for p in pts if all(p[i] < ref[i] for i in range(d)))
+                    if j.get("stress"):
+                        state["nstress"] += 1
+                        run.note_case(case, nboxes >= 2, sample=case if state["nstress"] == 7 else None)
+                        if not j["coq"]:
+                            continue
+                    ncell = 1
+                    for i in range(d):
+                        ncell *= max(1, len(set(p[i] for p in mpts)))
+                    grid = ncell <= 400 and state["grid_budget"] > 0
+                    if grid:
+                        state["grid_budget"] -= 1
+                    terms.append("CHv %s %s %s %s" % (cql(ref), cpts(mpts), cbool(grid), cql(obs_steps[k])))
                     cases.append(case)
-                if not j["stress"]:
-                    run.note_case(case, nboxes >= 2, sample=case if run.evaluations % 211 == 1 else None)
-            else:
-                w, vals, refo = j["w"], j["vals"], j["refo"]
-                nobj = len(w)
-                P = [[-(x * wi) for x, wi in zip(v, w)] for v in vals]
-                ref = refo if refo is not None else [max(p[i] for p in P) + 1 for i in range(nobj)]
-                total = measure_ie(P, ref)
-                loo = [measure_ie(P[:i] + P[i + 1:], ref) for i in range(len(P))]
-                losses = [total - x for x in loo]
-                case = {"kind": "population", "weights": sfr(w), "values": [sfr(v) for v in vals],
-                        "ref": None if refo is None else sfr(refo), "ref_as_array": j["job"]["refarr"],
-                        "expected_hv": str(total), "expected_losses": sfr(losses)}
-                obs_hv, obs_idx, obs_contrib = [], [], []
-                for be in backends:
-                    name = NAMES[be]
-                    if (idx, be) in crashed:
-                        case[name] = crashed[(idx, be)]
-                        run.oracle_violation("hypervolume wrappers with back-end %s: %s" % (name, crashed[(idx, be)]), dict(case),
-                                             observed=crashed[(idx, be)])
-                        continue
-                    if res is None or be not in res:
-                        continue
-                    r = res[be]
-                    bt = r["bt"]
-                    v = Fraction(bt[1]) if bt[0] == "ok" else bt[1]
-                    case["benchmarks.tools.hypervolume[%s]" % name] = str(v)
-                    if bt[0] != "ok" or v != total:
-                        run.oracle_violation("benchmarks.tools.hypervolume (back-end %s) is not the measure of the union of the "
-                                             "boxes of the negated weighted objectives (default reference: worst + 1)" % name,
-                                             dict(case), observed=str(v))
-                    if bt[0] == "ok":
-                        obs_hv.append(v)
-                    ind = r["ind"]
-                    i = ind[1]
-                    case["tools.indicator.hypervolume[%s]" % name] = str(i)
-                    if ind[0] != "ok" or not (0 <= i < len(vals)) or losses[i] != min(losses):
-                        run.oracle_violation("tools.indicator.hypervolume (back-end %s) does not return the index of an "
-                                             "individual whose removal reduces the hypervolume the least" % name, dict(case),
-                                             observed=str(i))
-                    if ind[0] == "ok" and i >= 0:
-                        obs_idx.append(i)
-                        contrib = r["contrib"]
-                        if len(contrib) == len(vals) and all(c[0] == "ok" for c in contrib):
-                            obs_contrib.append([Fraction(c[1]) for c in contrib])
-                terms2.append("CPop %s %s %s %s" % (cql(w), cpts(vals), copt(refo, cql), cql(obs_hv)))
+                    if d <= 2 and kind == "hv":
+                        # the transcribed one-/two-objective code paths, each against its own implementation
+                        terms.append("CLow %s %s %s %s" % (cql(ref), cpts(mpts), copt(lowobs.get("c"), cq),
+                                                           copt(lowobs.get("py"), cq)))
+                        cases.append(case)
+                    if not j.get("stress"):
+                        run.note_case((case, k), nboxes >= 2, sample=case if run.evaluations % 211 == 1 else None)
+                continue
+            # populations: one call ("pop") or a sequence on one population object ("popseq")
+            w, refo = j["w"], j["refo"]
+            steps = j["steps"]                   # list of value lists, one per call
+            case = {"kind": kind, "weights": sfr(w), "weights_type": j["job"].get("wtype", "float"),
+                    "values_type": j["job"].get("valtype", "float"),
+                    "values": [[sfr(v) for v in vals] for vals in steps] if kind == "popseq" else [sfr(v) for v in steps[0]],
+                    "ops": j["job"].get("ops"), "same_object_at": j["job"].get("sameobj"),
+                    "ref": None if refo is None else sfr(refo), "ref_form": j["job"].get("refform"),
+                    "ref_none_passed_explicitly": bool(j["job"].get("explicit_none")),
+                    "route": j["job"].get("route", "module"), "called_twice_on_same_objects": bool(j["job"].get("twice"))}
+            exp = [pop_expect(w, vals, refo) for vals in steps]
+            case["expected_hv"] = [str(t) for t, _ in exp]
+            case["expected_losses"] = [sfr(l) for _, l in exp]
+            obs = [([], [], []) for _ in steps]
+            for be in jbackends:
+                name = NAMES[be]
+                if (idx, be) in crashed:
+                    case[name] = crashed[(idx, be)]
+                    run.oracle_violation("hypervolume wrappers with back-end %s: %s" % (name, crashed[(idx, be)]), dict(case),
+                                         observed=crashed[(idx, be)])
+                    continue
+                if res is None or be not in res:
+                    continue
+                rs = [res[be]] if kind == "pop" else res[be]
+                if len(rs) != len(steps):
+                    run.oracle_violation("population sequence: wrong number of results", dict(case))
+                for k, r in enumerate(rs[:len(steps)]):
+                    judge_pop(case, name, r, exp[k][0], exp[k][1], len(steps[k]), *obs[k])
+                if kind == "pop":
+                    pure(case, name, res[be]["keep"])
+                    if "selected" in res[be]:
+                        state["selected"].add(tuple(res[be]["selected"]))
+            for k, vals in enumerate(steps):
+                terms2.append("CPop %s %s %s %s" % (cql(w), cpts(vals), copt(refo, cql), cql(obs[k][0])))
                 cases2.append(case)
-                terms2.append("CInd %s %s %s %s %s" % (cql(w), cpts(vals), copt(refo, cql), clist([cnat(i) for i in obs_idx]),
-                                                       clist([cql(c) for c in obs_contrib])))
+                terms2.append("CInd %s %s %s %s %s" % (cql(w), cpts(vals), copt(refo, cql),
+                                                       clist([cnat(i) for i in obs[k][1]]),
+                                                       clist([cql(c) for c in obs[k][2]])))
                 cases2.append(case)
-                run.note_case(case, len(set(losses)) > 1, sample=case if run.evaluations % 150 == 2 else None)
+                run.note_case((case, k, jbackends[0]), len(set(exp[k][1])) > 1,
+                              sample=case if run.evaluations % 150 == 2 else None)
 
         state["ncrash"] += len(crashes)
         run.extra_cov["implementation_crashes_or_hangs"] = state["ncrash"]
         run.extra_cov["stress_cases_oracle_only"] = state["nstress"]
+        run.extra_cov["argument_unmodified_checks"] = state["npure"]
+        run.extra_cov["malformed_argument_probes"] = state["nprobe"]
+        run.extra_cov["fallback_route_selected_modules"] = sorted(state["selected"])
         run.correspond("hv", "C15", terms, cases, shard=300)
         run.correspond("pop", "C15", terms2, cases2, shard=150)
-        del jobs[:]
+        del joblist[:]
 
+    # ------------------------------------------------------------------ generation: point sets
+    ALLFORMS = ["arr"] * 8 + ["list", "list", "tuple", "npscalars", "fortran", "strided", "refview", "arrayd",
+                                "arrayrow_list", "intlist", "i64", "i64i64", "f32"]
 
-    # ------------------------------------------------------------------ generation
+    def pick_form(pts, ref):
+        while True:
+            f = rng.choice(ALLFORMS)
+            if f in ("intlist", "i64i64") and not (all(is_int(c) for p in pts for c in p) and all(is_int(c) for c in ref)):
+                continue
+            if f == "i64" and not all(is_int(c) for p in pts for c in p):
+                continue
+            if f == "f32" and not (all(f32_exact(c) for p in pts for c in p) and small_enough(pts, ref)):
+                continue
+            return f
+
+    def floats(p, negzero):
+        out = [float(x) for x in p]
+        if negzero:
+            out = [(-0.0 if (x == 0.0 and rng.random() < 0.5) else x) for x in out]
+        return out
+
     def hv_job(pts, ref, tag, expected, stress=False, coq=True):
-        jobs.append({"job": {"k": "hv", "pts": [fl(p) for p in pts], "ref": fl(ref), "aslist": rng.random() < 0.3,
-                             "backends": backends},
+        form = "arr" if stress else pick_form(pts, ref)
+        nz = (not stress) and form in ("arr", "list", "tuple", "fortran") and rng.random() < 0.2
+        jobs.append({"job": {"k": "hv", "pts": [floats(p, nz) for p in pts], "ref": floats(ref, nz), "form": form,
+                             "twice": (not stress) and rng.random() < 0.15, "backends": backends},
                      "pts": pts, "ref": ref, "tag": tag, "expected": expected, "stress": stress, "coq": coq})
 
     def hv_set(pts, ref, tag, maxperm, stress=False):
@@ -418,14 +521,24 @@ def _main(run, rng, so_path):
                 hv_job(q, ref, tag + "/shuffle", expected)
 
     def transform(pts, ref):
-        """Exact affine change of coordinates: dyadic scaling per axis and translation (sometimes to ref = origin)."""
+        """Exact affine change of coordinates: per-axis power-of-two scaling (incl. tiny 2^-20 and large 2^10 scales),
+        translation (small, to ref = origin, or by +-2^30: large offset with a tiny spread).  Differences of
+        coordinates stay short dyadics, so every double operation of both implementations stays exact."""
         d = len(ref)
         mode = rng.random()
-        sc = [Fraction(1, rng.choice([1, 1, 2, 4])) for _ in range(d)]
+        u = rng.random()
+        if u < 0.08:
+            sc = [Fraction(1, 2 ** 20)] * d
+        elif u < 0.14:
+            sc = [Fraction(2 ** 10)] * d
+        else:
+            sc = [Fraction(1, rng.choice([1, 1, 2, 4])) for _ in range(d)]
         if mode < 0.25:
             sh = [-(r * s) for r, s in zip(ref, sc)]          # reference at the origin
-        elif mode < 0.6:
+        elif mode < 0.55:
             sh = [Fraction(rng.randint(-6, 3)) for _ in range(d)]
+        elif mode < 0.65 and u >= 0.14:
+            sh = [Fraction(rng.choice([1, -1]) * 2 ** 30) for _ in range(d)]
         else:
             sh = [F0] * d
         pts = [[p[i] * sc[i] + sh[i] for i in range(d)] for p in pts]
@@ -460,6 +573,21 @@ def _main(run, rng, so_path):
             pts[rng.randrange(n)] = list(ref)                                         # the reference point itself
         return pts, ref
 
+    def near_tie_set():
+        """<= 3 dimensions, small integers, but ONE axis carries coordinates c + j * 2^-40 (near-ties, 1 part in 10^12):
+        every product has at most one such factor, so the doubles are still exact."""
+        d = rng.randint(1, 3)
+        n = rng.randint(2, 6)
+        a = rng.randrange(d)
+        eps = Fraction(1, 2 ** 40)
+        pts = [[Fraction(rng.randint(0, 3)) for _ in range(d)] for _ in range(n)]
+        for p in pts:
+            p[a] = Fraction(rng.randint(0, 2)) + rng.choice([0, 0, 1, 1, 2, 3]) * eps
+        ref = [max(p[i] for p in pts) + rng.choice([0, 1]) for i in range(d)]
+        if rng.random() < 0.5:
+            ref[a] = max(p[a] for p in pts) + rng.choice([0, 1, 2]) * eps           # reference 0..2 ulps-ish above
+        return pts, ref
+
     maxperm = run.scale(4, 5)
 
     # corpus: the inputs on which pyhv was wrong before the repair (known_findings/C15.json "fixed"), and inputs that
@@ -473,9 +601,24 @@ def _main(run, rng, so_path):
         ([[3, 1, 4, 3, 3, 1], [2, 0, 3, 2, 3, 1], [4, 2, 3, 1, 3, 0]], [4, 2, 4, 3, 4, 2]),
         ([[1, 0, 2, 1], [1, 0, 2, 0], [0, 3, 1, 3]], [3, 3, 3, 4]),
         ([[0, 0, 1, 2, 2, 2, 1], [0, 1, 1, 2, 2, 2, 1], [0, 1, 1, 2, 2, 0, 1], [1, 2, 1, 0, 2, 2, 2]], [2, 3, 2, 3, 4, 3, 3]),
+        ([[2, 0], [0, 1]], [2, 2]),                      # one survivor of the filter, not the first point
+        ([[-3, -3, -3, -1], [-3, -3, -3, -3], [-2, -3, -2, -1]], [0, 0, 0, 0]),
     ]
     for pts, ref in corpus:
         hv_set([[Fraction(x) for x in p] for p in pts], [Fraction(x) for x in ref], "corpus", 5)
+
+    # boundaries: sizes 1 and 2, everything on the boundary, the reference itself, identical points
+    for d in range(1, 8):
+        r = [Fraction(rng.randint(1, 3)) for _ in range(d)]
+        p = [x - rng.randint(1, 2) for x in r]
+        onb = list(p)
+        onb[rng.randrange(d)] = r[0] if d == 1 else None
+        onb = [r[i] if c is None else c for i, c in enumerate(onb)]
+        if onb == p:
+            onb[0] = r[0]
+        for pts in ([p], [list(r)], [onb], [p, list(p)], [list(r), list(r)], [onb, list(r)], [onb, p], [p, onb],
+                    [list(r), p, onb], [onb, onb, p, p]):
+            hv_job(pts, r, "boundary", measure_ie(pts, r))
 
     # exhaustive small scopes: all point lists over {0,1,2}^d, reference (2,..,2) or (3,..,3)
     for d, n in run.scale([(1, 3), (2, 2), (3, 2)], [(1, 3), (2, 3), (3, 2), (4, 2)]):
@@ -495,12 +638,29 @@ def _main(run, rng, so_path):
         pts, ref = transform(pts, ref)
         hv_set(pts, ref, style, maxperm)
         if len(jobs) >= CHUNK:
-            flush()
+            flush(jobs, so_path)
+    for it in range(run.scale(150, 1500)):
+        pts, ref = near_tie_set()
+        hv_set(pts, ref, "near-tie", maxperm)
     # sets of maximal size in every dimension
     for d in range(1, 8):
         for style in ("front", "ties"):
             pts, ref = gen_set(d, 12, style)
             hv_set(pts, ref, style + "/max", maxperm)
+
+    # one pyhv._HyperVolume instance reused for several fronts (state in self.list), interleaved dimensions
+    for it in range(run.scale(60, 600)):
+        d = rng.randint(1, 6)
+        fronts = []
+        ref = None
+        for _ in range(rng.randint(2, 4)):
+            pts, r = gen_set(d, rng.randint(1, 6), rng.choice(["front", "ties"]))
+            ref = r if ref is None else [max(a, b) for a, b in zip(ref, r)]
+            fronts.append(pts)
+        jobs.append({"job": {"k": "hvseq", "ref": fl(ref), "fronts": [[fl(p) for p in f] for f in fronts], "backends": ["py"]},
+                     "ref": ref, "fronts": fronts, "tag": "instance-reuse", "expected": [measure_ie(f, ref) for f in fronts]})
+    for _ in range(3):
+        jobs.append({"job": {"k": "probe", "backends": backends}})
 
     # stress: tie-heavy lists in 4..7 dimensions, small coordinate range, with and without slack to the reference
     for it in range(run.scale(12000, 120000)):
@@ -512,35 +672,124 @@ def _main(run, rng, so_path):
         ref = [max(p[i] for p in pts) + slack for i in range(d)]
         hv_set(pts, ref, "stress", 0, stress=True)
         if len(jobs) >= CHUNK:
-            flush()
+            flush(jobs, so_path)
 
-    # populations
-    def pop_job(w, vals, refo):
-        jobs.append({"job": {"k": "pop", "w": fl(w), "vals": [fl(v) for v in vals], "refo": None if refo is None else fl(refo),
-                             "refarr": rng.random() < 0.7, "backends": backends},
-                     "w": w, "vals": vals, "refo": refo})
-
-    for it in range(run.scale(500, 5000)):
+    # ------------------------------------------------------------------ generation: populations
+    def gen_pop():
         nobj = rng.randint(2, 4)
         n = rng.randint(2, 4) if rng.random() < 0.5 else rng.randint(5, 9)
-        if rng.random() < 0.6:
+        u = rng.random()
+        if u < 0.5:
             w = [Fraction(rng.choice([1, -1])) for _ in range(nobj)]
         else:
-            w = [Fraction(rng.choice([1, -1])) * rng.choice([Fraction(1), Fraction(2), Fraction(1, 2), Fraction(3)]) for _ in range(nobj)]
-        if rng.random() < 0.4:
+            mags = [Fraction(1), Fraction(2), Fraction(1, 2), Fraction(3), Fraction(1, 4), Fraction(8)]
+            w = [Fraction(rng.choice([1, -1])) * rng.choice(mags) for _ in range(nobj)]
+        style = rng.random()
+        if style < 0.4:
             cols = [rng.sample(range(n + 2), n) for _ in range(nobj)]
             vals = [[Fraction(cols[i][j]) for i in range(nobj)] for j in range(n)]
+        elif style < 0.5:
+            vals = [[Fraction(rng.randint(-2, 2)) for _ in range(nobj)] for _ in range(n)]       # integers, many ties
         else:
             k = rng.choice([1, 2, 3, 6])
             vals = [[Fraction(rng.randint(-k, k)) / rng.choice([1, 1, 2]) for _ in range(nobj)] for _ in range(n)]
-        if rng.random() < 0.15:
-            vals[rng.randrange(n)] = list(vals[rng.randrange(n)])
-        if rng.random() < 0.6:
-            refo = None
+        if rng.random() < 0.08:
+            off = [Fraction(rng.choice([0, 2 ** 20, -2 ** 20])) for _ in range(nobj)]          # large offset, small spread
+            vals = [[x + o for x, o in zip(v, off)] for v in vals]
+        v = rng.random()
+        if v < 0.2:
+            a, b = rng.sample(range(n), 2)
+            vals[b] = list(vals[a])                                                             # duplicate fitness
+        elif v < 0.25:
+            vals = [list(vals[0]) for _ in range(n)]                                            # all identical
+        return w, vals
+
+    def gen_ref(w, vals):
+        if rng.random() < 0.55:
+            return None
+        nobj = len(w)
+        P = [[-(x * wi) for x, wi in zip(v, w)] for v in vals]
+        return [max(p[i] for p in P) + rng.choice([0, 1, 1, 2, Fraction(1, 2)]) for i in range(nobj)]
+
+    def pop_options(w, vals, refo):
+        job = {}
+        ints = all(is_int(x) for v in vals for x in v)
+        wints = all(is_int(x) for x in w)
+        P = [[-(x * wi) for x, wi in zip(v, w)] for v in vals]
+        rr = refo if refo is not None else [max(p[i] for p in P) + 1 for i in range(len(w))]
+        f32ok = all(f32_exact(x) for v in vals for x in v) and small_enough(P + vals, rr)
+        job["valtype"] = rng.choice(["float"] * 5 + (["int", "npint"] if ints else []) + ["npfloat64"] +
+                                    (["npfloat32"] if f32ok else []))
+        job["wtype"] = "int" if (wints and rng.random() < 0.3) else "float"
+        if refo is not None:
+            job["refform"] = rng.choice(["arr", "arr", "list", "tuple"] + (["intarr"] if all(is_int(x) for x in refo) else []))
         else:
-            P = [[-(x * wi) for x, wi in zip(v, w)] for v in vals]
-            refo = [max(p[i] for p in P) + rng.choice([0, 1, 1, 2, Fraction(1, 2)]) for i in range(nobj)]
-        pop_job(w, vals, refo)
+            job["explicit_none"] = rng.random() < 0.3
+        job["route"] = "alias" if rng.random() < 0.3 else "module"
+        job["twice"] = rng.random() < 0.25
+        return job
+
+    def pop_job(w, vals, refo):
+        job = {"k": "pop", "w": fl(w), "vals": [fl(v) for v in vals], "refo": None if refo is None else fl(refo),
+               "backends": backends}
+        job.update(pop_options(w, vals, refo))
+        if len(vals) >= 3 and rng.random() < 0.1:
+            a, b = rng.sample(range(len(vals)), 2)
+            job["sameobj"] = [[a, b]]                     # the very same individual object twice
+            vals = list(vals)
+            vals[b] = vals[a]
+        rec = {"job": job, "w": w, "refo": refo, "steps": [vals]}
+        jobs.append(rec)
+        fjob = dict(job)
+        fjob["backends"] = ["fb"]
+        fb_jobs.append({"job": fjob, "w": w, "refo": refo, "steps": [vals]})
+
+    def popseq_job(w, vals, refo):
+        """call -> change the population through the public routes -> call again (same objects)"""
+        nobj = len(w)
+        cur = [list(v) for v in vals]
+        steps = [[list(v) for v in cur]]
+        ops = []
+        for _ in range(rng.randint(1, 4)):
+            u = rng.random()
+            # a new fitness that still weakly dominates an explicit reference: an existing one, improved
+            base = cur[rng.randrange(len(cur))]
+            newv = [x + (1 if wi > 0 else -1) * Fraction(rng.choice([0, 0, 1, 2, 3]), rng.choice([1, 2]))
+                    for x, wi in zip(base, w)]
+            if u < 0.4:
+                i = rng.randrange(len(cur))
+                ops.append([rng.choice(["set", "delset"]), i, fl(newv)])
+                cur[i] = newv
+            elif u < 0.55 and len(cur) >= 2:
+                a, b = rng.sample(range(len(cur)), 2)
+                ops.append(["swap", a, b])
+                cur[a], cur[b] = cur[b], cur[a]
+            elif u < 0.7 and len(cur) > 2:
+                i = rng.randrange(len(cur))
+                ops.append(["pop", i])
+                cur.pop(i)
+            else:
+                ops.append(["append", fl(newv)])
+                cur.append(newv)
+            steps.append([list(v) for v in cur])
+        job = {"k": "popseq", "w": fl(w), "vals": [fl(v) for v in vals], "refo": None if refo is None else fl(refo),
+               "ops": ops, "backends": backends, "refform": "arr"}
+        jobs.append({"job": job, "w": w, "refo": refo, "steps": steps})
+        fjob = dict(job)
+        fjob["backends"] = ["fb"]
+        fb_jobs.append({"job": fjob, "w": w, "refo": refo, "steps": steps})
+
+    for it in range(run.scale(500, 5000)):
+        w, vals = gen_pop()
+        pop_job(w, vals, gen_ref(w, vals))
         if len(jobs) >= CHUNK:
-            flush()
-    flush()
+            flush(jobs, so_path)
+    for it in range(run.scale(120, 1200)):
+        w, vals = gen_pop()
+        popseq_job(w, vals, gen_ref(w, vals) if rng.random() < 0.5 else None)
+    flush(jobs, so_path)
+    # the same populations on the route the library takes by itself when the extension cannot be imported
+    while fb_jobs:
+        part = fb_jobs[:CHUNK]
+        del fb_jobs[:CHUNK]
+        flush(part, "FALLBACK")
